@@ -1794,11 +1794,18 @@ class CodeGenerator(NodeVisitor):
         if isinstance(val, float):
             if val != val or val in (float("inf"), float("-inf")):
                 # repr() of a non-finite float is a bare name, not an expression
-                self.write(f"float({str(val)!r})")
+                text = f"float({str(val)!r})"
             else:
-                self.write(str(val))
+                text = str(val)
         else:
-            self.write(repr(val))
+            text = repr(val)
+
+        if text.startswith("-"):
+            # A negative number is a unary minus in Python source, which binds
+            # weaker than ** and subscripts of the surrounding expression.
+            text = f"({text})"
+
+        self.write(text)
 
     def visit_TemplateData(self, node: nodes.TemplateData, frame: Frame) -> None:
         try:
